@@ -105,7 +105,20 @@ def impl(op, a):
         f = _mk_any(a[0])
         out = _obs_any(f)
         kept = bytearray()            # the caller's buffer, re-used (and edited in place) across assignments
-        for o in a[1:]:
+        # a field copied half-way (copy.copy / copy.deepcopy) is an independent field in the same state: mode 2 goes
+        # on with the copy, mode 3 goes on with the original; the other one must show the same views at the end
+        import copy
+        mode = (len(a) * 7 + (a[0][0] % 5 if isinstance(a[0][0], int) else 0)) % 4 if len(a) >= 3 else 0
+        fork_at = (len(a) - 1) // 2
+        frozen = snap = None
+        for i_, o in enumerate(a[1:]):
+            if i_ == fork_at and mode in (2, 3):
+                snap = _obs_any(f)
+                g = copy.copy(f) if a[0][1] % 2 == 0 else copy.deepcopy(f)
+                if mode == 2:
+                    frozen, f = f, g
+                else:
+                    frozen = g
             k = o[0]
             try:
                 if k == 0:
@@ -135,6 +148,8 @@ def impl(op, a):
             except Exception as e:
                 st = [1, core.canon_code(core.classify_exception(e))]
             out += [st] + _obs_any(f)
+        if frozen is not None and _obs_any(frozen) != snap:
+            out[-1] = [-1] + out[-1][1:]
         return out
     raise RuntimeError("bad op")
 
@@ -679,6 +694,9 @@ def _oracle_live(a, ires):
             if obs != prev:
                 return ("C20/UnsignedByteField.%s/refused-but-changed" % ("byte_len" if k == 3 else "value"),
                         "step %d: %s was refused, yet the views changed from %s to %s" % (i, what, prev, obs))
+        if obs[3][:1] == [-1]:
+            return ("C20/UnsignedByteField.copy/diverged", "a field copied (copy.copy / copy.deepcopy) half-way through the history "
+                    "and the field it was copied from do not stay independent: the views of the one left alone changed while the other was used")
         if obs[3] != [1, 1, 1, 1]:
             return ("C20/UnsignedByteField.__eq__/live-object", "step %d, after %s: (== twin, hash key, == own octets, rebuild) = %s for views %s" % (i, what, obs[3], obs[:2]))
         prev = obs
